@@ -8,6 +8,8 @@ import (
 	"strings"
 
 	ethcmn "github.com/ethereum/go-ethereum/common"
+	ethcrypto "github.com/ethereum/go-ethereum/crypto"
+	"github.com/ethereum/go-ethereum/rlp"
 
 	"olverif/internal/hist"
 )
@@ -104,6 +106,26 @@ func C15(blk *hist.Block) []Finding {
 		if len(st) > 1 {
 			sort.Strings(st)
 			out = append(out, Finding{"C15", "C15/two-trackers/" + strings.Join(st, "+"), fmt.Sprintf("block %d: external transaction %s backs trackers in stores %v at the same time", blk.H, n[:12], st)})
+		}
+	}
+	// (3b) ... whatever bytes follow it in the submitted form: the external transaction is the first RLP value
+	byTx := map[string][]string{}
+	for _, t := range curT {
+		if _, _, rest, err := rlp.Split(t.SignedETHTx); err == nil && len(t.SignedETHTx) > len(rest) {
+			h := ethcrypto.Keccak256Hash(t.SignedETHTx[:len(t.SignedETHTx)-len(rest)]).Hex()
+			byTx[h] = append(byTx[h], t.TrackerName)
+		}
+	}
+	for h, ns := range byTx {
+		sort.Strings(ns)
+		distinct := 0
+		for i := range ns {
+			if i == 0 || ns[i] != ns[i-1] {
+				distinct++
+			}
+		}
+		if distinct > 1 {
+			out = append(out, Finding{"C15", "C15/two-trackers/same-ethereum-transaction-other-bytes", fmt.Sprintf("block %d: the Ethereum transaction %s backs %d trackers with different names (%v): the submitted forms differ only in bytes after the transaction", blk.H, h[:12], distinct, ns)})
 		}
 	}
 	// replay this block's reports on the previous vote slots
